@@ -6,6 +6,8 @@ import (
 	"go/constant"
 	"go/token"
 	"go/types"
+	"sort"
+	"strconv"
 	"strings"
 
 	"golang.org/x/tools/go/packages"
@@ -101,9 +103,195 @@ func runC05(c *core.Ctx) error {
 				continue
 			}
 			checkOneOutcome(c, r5, fx.Name+"/"+recv, fn)
+			checkEntrySSA(c, r6, fx.Name+"/"+recv+".ServeHTTP", fn)
+			if fp := ex.Prog.Func(fx.PkgPath, recv+".FindPath"); fp != nil && fp.Blocks != nil {
+				checkEntrySSA(c, r6, fx.Name+"/"+recv+".FindPath", fp)
+			}
 		}
 	}
 	return nil
+}
+
+// checkEntrySSA: what is matched. (a) The string handed to cutPrefix is, on
+// every path, either URL.Path (decoded by net/http) or the first result of
+// uri.NormalizeEscapedPath; the raw RawPath never reaches the prefix comparison
+// or the matcher un-normalised. (b) NormalizeEscapedPath is applied to
+// URL.RawPath itself. (c) Arguments are percent-decoded (url.PathUnescape) only
+// under the test that the matched text was the escaped RawPath — decoding
+// arguments taken from the already decoded URL.Path decodes them twice.
+func checkEntrySSA(c *core.Ctx, r *core.Rule, key string, fn *ssa.Function) {
+	fieldLoad := func(v ssa.Value) string {
+		ld, ok := v.(*ssa.UnOp)
+		if !ok || ld.Op != token.MUL {
+			return ""
+		}
+		fa, ok := ld.X.(*ssa.FieldAddr)
+		if !ok {
+			return ""
+		}
+		return fieldName(fa.X.Type(), fa.Field)
+	}
+	var leaves func(v ssa.Value, seen map[ssa.Value]bool, out map[string]token.Pos)
+	leaves = func(v ssa.Value, seen map[ssa.Value]bool, out map[string]token.Pos) {
+		if seen[v] {
+			return
+		}
+		seen[v] = true
+		switch x := v.(type) {
+		case *ssa.Phi:
+			for _, e := range x.Edges {
+				leaves(e, seen, out)
+			}
+		case *ssa.Extract:
+			if call, ok := x.Tuple.(*ssa.Call); ok {
+				name := core.CalleeName(call.Common())
+				if strings.HasSuffix(name, "uri.NormalizeEscapedPath") && x.Index == 0 {
+					out["normalized"] = x.Pos()
+					return
+				}
+				if strings.HasSuffix(name, ".cutPrefix") && x.Index == 0 {
+					leaves(call.Common().Args[len(call.Common().Args)-1], seen, out)
+					return
+				}
+			}
+			out["other:"+x.String()] = x.Pos()
+		case *ssa.UnOp:
+			if f := fieldLoad(x); f != "" {
+				out["field:"+f] = x.Pos()
+				return
+			}
+			if al, ok := x.X.(*ssa.Alloc); ok && x.Op == token.MUL {
+				for _, ref := range *al.Referrers() {
+					if st, ok := ref.(*ssa.Store); ok && st.Addr == ssa.Value(al) {
+						leaves(st.Val, seen, out)
+					}
+				}
+				return
+			}
+			out["other:"+x.String()] = x.Pos()
+		default:
+			out["other:"+v.String()] = v.Pos()
+		}
+	}
+	nCut, nNorm := 0, 0
+	for _, f := range core.AllFuncs(fn) {
+		for _, call := range core.Calls(f) {
+			name := core.CalleeName(call.Common())
+			args := call.Common().Args
+			switch {
+			case strings.HasSuffix(name, ".cutPrefix"):
+				nCut++
+				out := map[string]token.Pos{}
+				leaves(args[len(args)-1], map[ssa.Value]bool{}, out)
+				var bad []string
+				for k := range out {
+					if k != "normalized" && k != "field:Path" {
+						bad = append(bad, strings.TrimPrefix(strings.TrimPrefix(k, "field:"), "other:"))
+					}
+				}
+				sort.Strings(bad)
+				if len(bad) == 0 {
+					r.Pass(key + ": cutPrefix receives URL.Path or the normalised RawPath")
+				} else {
+					r.Fail(key+":cutPrefix-input", c.Pos(call.Pos()), fmt.Sprintf("the configured prefix is compared with %s, which is neither URL.Path nor the output of NormalizeEscapedPath: an equivalent spelling of the prefix (needless escape, lower-case hex) is not found", strings.Join(bad, ", ")))
+				}
+			case strings.HasSuffix(name, "uri.NormalizeEscapedPath"):
+				nNorm++
+				out := map[string]token.Pos{}
+				leaves(args[0], map[ssa.Value]bool{}, out)
+				if len(out) == 1 {
+					if _, ok := out["field:RawPath"]; ok {
+						r.Pass(key + ": NormalizeEscapedPath is applied to URL.RawPath")
+						continue
+					}
+				}
+				var got []string
+				for k := range out {
+					got = append(got, k)
+				}
+				sort.Strings(got)
+				r.Fail(key+":normalize-input", c.Pos(call.Pos()), fmt.Sprintf("NormalizeEscapedPath is applied to %v, not to URL.RawPath as a whole", got))
+			case name == "net/url.PathUnescape":
+				// must be control-dependent on a test derived from RawPath != "" / the escaped flag
+				guarded := false
+				for _, b := range f.Blocks {
+					iff, ok := b.Instrs[len(b.Instrs)-1].(*ssa.If)
+					if !ok {
+						continue
+					}
+					if !(b.Succs[0].Dominates(call.Block()) && len(b.Succs[0].Preds) == 1) {
+						continue
+					}
+					if condMentionsRawPath(iff.Cond, 0) {
+						guarded = true
+					}
+				}
+				// a deferred closure registered under that test
+				if !guarded && f.Parent() != nil {
+					for _, b := range f.Parent().Blocks {
+						for _, in := range b.Instrs {
+							d, ok := in.(*ssa.Defer)
+							if !ok || d.Common().StaticCallee() != f {
+								continue
+							}
+							for _, tb := range f.Parent().Blocks {
+								iff, ok := tb.Instrs[len(tb.Instrs)-1].(*ssa.If)
+								if ok && tb.Succs[0].Dominates(b) && len(tb.Succs[0].Preds) == 1 && condMentionsRawPath(iff.Cond, 0) {
+									guarded = true
+								}
+							}
+						}
+					}
+				}
+				if guarded {
+					r.Pass(key + ": arguments are unescaped only when the escaped RawPath was matched")
+				} else {
+					r.Fail(key+":unescape-unconditional", c.Pos(call.Pos()), "arguments are percent-decoded although the matched text may be the already decoded URL.Path: a literal '%' in a value is decoded twice and the lookup disagrees with serving")
+				}
+			}
+		}
+	}
+	if nCut == 0 || nNorm == 0 {
+		r.Fail(key+":entry-ssa", c.Pos(fn.Pos()), fmt.Sprintf("no cutPrefix (%d) / NormalizeEscapedPath (%d) call found", nCut, nNorm))
+	}
+}
+
+// condMentionsRawPath: the condition is (derived from) URL.RawPath != "" or the
+// flag computed from the normalised path (strings.ContainsRune(elem, '%')).
+func condMentionsRawPath(v ssa.Value, depth int) bool {
+	if depth > 6 {
+		return false
+	}
+	switch x := v.(type) {
+	case *ssa.BinOp:
+		return condMentionsRawPath(x.X, depth+1) || condMentionsRawPath(x.Y, depth+1)
+	case *ssa.UnOp:
+		if x.Op == token.MUL {
+			if fa, ok := x.X.(*ssa.FieldAddr); ok {
+				return fieldName(fa.X.Type(), fa.Field) == "RawPath"
+			}
+			if al, ok := x.X.(*ssa.Alloc); ok {
+				for _, ref := range *al.Referrers() {
+					if st, ok := ref.(*ssa.Store); ok && st.Addr == ssa.Value(al) && condMentionsRawPath(st.Val, depth+1) {
+						return true
+					}
+				}
+			}
+			return false
+		}
+		return condMentionsRawPath(x.X, depth+1)
+	case *ssa.Phi:
+		for _, e := range x.Edges {
+			if condMentionsRawPath(e, depth+1) {
+				return true
+			}
+		}
+	case *ssa.Call:
+		if core.IsCallTo(x.Common(), "strings", "ContainsRune") {
+			return true
+		}
+	}
+	return false
 }
 
 func nodeString(pkg *packages.Package, n ast.Node) string {
@@ -216,6 +404,50 @@ func checkCaptures(c *core.Ctx, r *core.Rule, pkg *packages.Package, key string,
 						r.Pass(fmt.Sprintf("%s: args[%s] = elem, guarded by IndexByte(elem,'/') < 0", key, k))
 					default:
 						r.Fail("param-tail-delimiter-captures-slash", c.Pos(as.Pos()), fmt.Sprintf("%s: args[%s] = %s is bounded only by %q, not by '/': a request segment boundary inside the value is captured into the argument (e.g. {foo}=\"a/b\")", key, k, rhs, chars))
+					}
+					// the bytes that end the parameter are exactly the first bytes of the static children matched next
+					if found {
+						var sw *ast.SwitchStmt
+						for _, later := range list[i+1:] {
+							if x, ok := later.(*ast.SwitchStmt); ok && x.Tag != nil && types.ExprString(x.Tag) == "elem[0]" {
+								sw = x
+								break
+							}
+						}
+						heads := map[rune]bool{}
+						if sw != nil {
+							for _, cs := range sw.Body.List {
+								for _, e := range cs.(*ast.CaseClause).List {
+									if ch, ok := constChar(pkg, e); ok {
+										heads[ch] = true
+									}
+								}
+							}
+						}
+						tails := map[rune]bool{}
+						if rhs == "elem[:idx]" {
+							for _, ch := range chars {
+								tails[ch] = true
+							}
+						}
+						var missing, extra []string
+						for ch := range heads {
+							if !tails[ch] {
+								missing = append(missing, strconv.QuoteRune(ch))
+							}
+						}
+						for ch := range tails {
+							if !heads[ch] {
+								extra = append(extra, strconv.QuoteRune(ch))
+							}
+						}
+						sort.Strings(missing)
+						sort.Strings(extra)
+						if len(missing)+len(extra) == 0 {
+							r.Pass(fmt.Sprintf("%s: args[%s] ends at exactly the first bytes of the following static children (%d)", key, k, len(heads)))
+						} else {
+							r.Fail("param-tail-set-mismatch", c.Pos(as.Pos()), fmt.Sprintf("%s: args[%s] is ended by %q but the static children matched after it start with %v (not a tail: %v; tail without child: %v): the value swallows a sibling's suffix and the more specific template is unreachable", key, k, chars, keysOf(heads), missing, extra))
+						}
 					}
 				}
 			}
@@ -344,6 +576,15 @@ func checkRestore(c *core.Ctx, r *core.Rule, pkg *packages.Package, key string, 
 	if r.Obligations == before {
 		r.Pass(key + ": no static child has a parameter sibling")
 	}
+}
+
+func keysOf(m map[rune]bool) []string {
+	var out []string
+	for ch := range m {
+		out = append(out, strconv.QuoteRune(ch))
+	}
+	sort.Strings(out)
+	return out
 }
 
 func exprList(xs []ast.Expr) string {
